@@ -152,8 +152,93 @@ def make_scene(k, seed):
     xs, ys = int(src[-1][1]), int(src[-1][2])
     data_bad[ys + 1, xs - 1] = np.nan
     data_bad[y0 - 1, x0 + 2] = np.inf
-    return {'k': k, 'shape': (ny, nx), 'src': src, 'odd': odd, 'data': data, 'data2': data2, 'data_bad': data_bad,
-            'error': error, 'mask': mask, 'bkg': bkg, 'conv': conv, 'seg': seg}
+    S = {'k': k, 'shape': (ny, nx), 'src': src, 'odd': odd, 'data': data, 'data2': data2, 'data_bad': data_bad,
+         'error': error, 'mask': mask, 'bkg': bkg, 'conv': conv, 'seg': seg}
+    S['edge'] = edge_stars((ny, nx), k, seed)
+    S['fdata'] = data + sum(gauss2d(xx, yy, e['amp'], e['x'], e['y'], e['sigma'], e['sigma'], 0.0) for e in S['edge'])
+    return S
+
+
+# ----------------------------------------------------------------------------
+# edge stars (image handed to the star finders): BORDER ALPHABET
+# ----------------------------------------------------------------------------
+# One compact round star for EVERY (edge, d) in {bottom, top, left, right} x {0..5}: its brightest pixel is d pixels
+# from that edge (d = 0: on the edge row / column) and >= 9 px from the two neighbouring edges.  With kernel half
+# sizes (xradius, yradius) in {2,3,4}^2 this puts a star on each side of every border-exclusion / footprint boundary
+# of every finder configuration, separately for the x and the y direction.  Structure fixed; the seed supplies the
+# sub-pixel fractions (|f| <= 0.3: the brightest pixel is the nominal one) and a few percent of amplitude.
+EDGE_D = (0, 1, 2, 3, 4, 5)
+EDGE_NAMES = ('bottom', 'top', 'left', 'right')
+EDGE_START = 10                # first star: 10 px from the neighbouring edge; spacing min(7, (L - 20) // 5) for edge length L
+
+
+def edge_stars(shape, k, seed):
+    ny, nx = shape
+    rng = np.random.default_rng(104729 * int(seed) + 13 * k + 7)
+    out = []
+    for edge in EDGE_NAMES:
+        for j in range(len(EDGE_D)):
+            d = EDGE_D[j] if edge in ('bottom', 'left') else EDGE_D[len(EDGE_D) - 1 - j]
+            L = nx if edge in ('bottom', 'top') else ny
+            along = EDGE_START + min(7, (L - 20) // 5) * j
+            ix, iy = {'bottom': (along, d), 'top': (along, ny - 1 - d), 'left': (d, along),
+                      'right': (nx - 1 - d, along)}[edge]
+            if not EDGE_START <= along <= L - EDGE_START or (L - 20) // 5 < 5:
+                raise RuntimeError(f'scene {k}: edge star {edge}/{d} does not fit')
+            out.append({'edge': edge, 'd': d, 'ix': ix, 'iy': iy, 'x': ix + rng.uniform(-0.3, 0.3),
+                        'y': iy + rng.uniform(-0.3, 0.3), 'amp': 45.0 * rng.uniform(0.95, 1.05), 'sigma': 1.15})
+    return out
+
+
+# ----------------------------------------------------------------------------
+# peak pixel of a star-finder row, recovered from documented columns (numpy only)
+# ----------------------------------------------------------------------------
+def dao_peak_pixels(data, xc, yc, peak, kshape):
+    """DAOStarFinder: ``peak`` is the data value of the (integer) detection pixel and the marginal-fit centroid is
+    a correction of at most the kernel size.  Candidates: pixels within one kernel size of the centroid holding exactly
+    that value.  Returns one list of (xp, yp) candidates per row (generic data: exactly one)."""
+    ky, kx = kshape
+    ny, nx = data.shape
+    out = []
+    for i in range(len(xc)):
+        cand = []
+        if np.isfinite(xc[i]) and np.isfinite(yc[i]):
+            x0, x1 = max(int(math.ceil(xc[i] - kx)), 0), min(int(math.floor(xc[i] + kx)), nx - 1)
+            y0, y1 = max(int(math.ceil(yc[i] - ky)), 0), min(int(math.floor(yc[i] + ky)), ny - 1)
+            if x1 >= x0 and y1 >= y0:
+                jj, ii = np.nonzero(data[y0:y1 + 1, x0:x1 + 1] == peak[i])
+                cand = [(int(x0 + a), int(y0 + b)) for a, b in zip(ii, jj)]
+        out.append(cand)
+    return out
+
+
+def starfinder_peak_pixels(data, xc, yc, flux, kshape):
+    """StarFinder: ``flux`` is the sum and (xcentroid, ycentroid) the centre of mass of the non-negative pixels of
+    the kernel-sized box centred on the detection pixel (documented), so the centroid lies inside that box.
+    Candidates: pixels within the kernel half size of the centroid whose box reproduces both.  Returns one list of
+    (xp, yp) candidates per row; more than one when neighbouring boxes differ only by columns / rows without a
+    positive pixel (negative pixels count as zero)."""
+    ky, kx = kshape
+    ry, rx = ky // 2, kx // 2
+    pad = np.pad(np.maximum(data, 0.0), ((ry, ry), (rx, rx)))
+    ny, nx = data.shape
+    yy, xx = np.mgrid[-ry:ry + 1, -rx:rx + 1].astype(float)
+    out = []
+    for i in range(len(xc)):
+        cand = []
+        if np.isfinite(xc[i]) and np.isfinite(yc[i]) and np.isfinite(flux[i]) and flux[i] > 0:
+            for py in range(max(int(math.ceil(yc[i] - ry - 1e-6)), 0), min(int(math.floor(yc[i] + ry + 1e-6)), ny - 1) + 1):
+                for px in range(max(int(math.ceil(xc[i] - rx - 1e-6)), 0),
+                                min(int(math.floor(xc[i] + rx + 1e-6)), nx - 1) + 1):
+                    box = pad[py:py + ky, px:px + kx]
+                    tot = box.sum()
+                    if abs(tot - flux[i]) > 1e-9 * abs(flux[i]):
+                        continue
+                    if abs((box * xx).sum() / tot + px - xc[i]) <= 1e-7 and \
+                            abs((box * yy).sum() / tot + py - yc[i]) <= 1e-7:
+                        cand.append((px, py))
+        out.append(cand)
+    return out
 
 
 # ----------------------------------------------------------------------------
